@@ -659,10 +659,11 @@ theorem listed_can_be_shown {env : Env} (hinj : HashInj env) (st : Store) (hi : 
     rfl
 
 /-- `ShowInv` is preserved by every operation once N1 is repaired (pinned: `N1_create_continues_witness`) -/
-theorem op_preserves_ShowInv {env : Env} (hv : env.v.fixReturn = true) (hinj : HashInj env) (st : Store)
+theorem op_preserves_ShowInv {env : Env} (hv : env.v.fixReturn = true) (hinj : HashInj env)
+    (hkind : ModelKinds env) (st : Store)
     (hi : Inv env st) (hs : ShowInv env st) (op : Op) (ch : Choice) (hlit : LitterOk env op) :
     ShowInv env (step env st op ch).1 :=
-  step_showInv hv hinj hi.1 hs op ch (by
+  step_showInv hv hinj hkind hi.1 hs op ch (by
     cases op with
     | pull n reg sv =>
       cases reg with
@@ -678,9 +679,11 @@ theorem empty_ShowInv (env : Env) : ShowInv env Store.empty := by
     overrides, auto-detected layers, any digest spelling), copies, deletes, startup prunes, and the injected
     plant / corrupt / dashify / litter faults (files planted under a blob name must hold that content) — every
     model that is listed has all its layers and config present with the recorded sizes and digests, and `show`
-    of it answers 200. -/
+    of it answers 200.  Guard `ModelKinds`: no GGUF is an adapter / projector (`general.type`); with one, a create
+    from `files` that hold nothing else is listed and cannot be shown — finding N6, `N6_witness`. -/
 theorem history_listed_complete_and_shown_fixed {env : Env} (hv : env.v.fixAlias = true)
-    (hk : env.v.fixKeep = true) (hr : env.v.fixReturn = true) (hinj : HashInj env) (ops : List (Op × Choice))
+    (hk : env.v.fixKeep = true) (hr : env.v.fixReturn = true) (hinj : HashInj env) (hkind : ModelKinds env)
+    (ops : List (Op × Choice))
     (hlit : ∀ p ∈ ops, LitterOk env p.1) (st : Store) (hi : Inv env st) (hs : ShowInv env st) :
     Inv env (run env st ops) ∧ ∀ n ∈ listed (run env st ops), showAt env (run env st ops) n = "h200" := by
   induction ops generalizing st with
@@ -688,7 +691,7 @@ theorem history_listed_complete_and_shown_fixed {env : Env} (hv : env.v.fixAlias
   | cons p rest ih =>
     exact ih (fun q hq => hlit q (by simp [hq])) _
       (op_preserves_NameInv_fixed hv hk hinj st hi p.1 p.2 (hlit p (by simp)))
-      (op_preserves_ShowInv hr hinj st hi hs p.1 p.2 (hlit p (by simp)))
+      (op_preserves_ShowInv hr hinj hkind st hi hs p.1 p.2 (hlit p (by simp)))
 
 /-! ## witnesses of the defects the model shares with the code (Lean-checked) -/
 
@@ -701,8 +704,8 @@ def autoP : Bytes := strBytes "{\"a\":1}\n"
 def wEnv : Env :=
   { hash := fun c => String.ofList (c.map (fun b => Char.ofNat b.toNat))
     gguf := fun c =>
-      if c = gChat then some ⟨"llama", "0", "unknown", some (autoT, some autoP)⟩
-      else if c.head? = some 71 then some ⟨"llama", "0", "unknown", none⟩ else none
+      if c = gChat then some ⟨"llama", "0", "unknown", some (autoT, some autoP), .model⟩
+      else if c.head? = some 71 then some ⟨"llama", "0", "unknown", none, .model⟩ else none
     v := .pinned }
 
 /-- the same toy world with all three repairs in -/
@@ -1294,6 +1297,36 @@ def regM : Manifest := ⟨⟨.config, ⟨.colon, "C"⟩, 1⟩, [⟨.model, ⟨.c
 
 theorem rEnv_inj : HashInj rEnv := fun a b h => textHash_inj a b h
 
+/-- the toy world has no adapter / projector GGUF -/
+theorem rEnv_kinds : ModelKinds rEnv := by
+  intro c mt h
+  simp only [rEnv, wEnv] at h
+  split at h
+  · injection h with e; subst e; rfl
+  · split at h
+    · injection h with e; subst e; rfl
+    · cases h
+
+/-- the repaired toy world plus adapter GGUFs: anything that starts with 'A' decodes with `general.type = adapter` -/
+def aEnv : Env :=
+  { rEnv with gguf := fun c => if c.head? = some 65 then some ⟨"llama", "0", "unknown", none, .adapter⟩ else rEnv.gguf c }
+
+/-- **N6.**  `create a` from `files` that hold only an adapter GGUF answers success, the model is listed, complete
+    — and `show` answers 404 (no model layer): "every listed model can be shown" fails by API operations alone.
+    The same request with a model GGUF next to the adapter can be shown. -/
+theorem N6_witness :
+    let s0 := run aEnv Store.empty [(.upload ⟨.colon, "A"⟩ [65], ch0), (.upload ⟨.colon, "G"⟩ gG, ch0)]
+    let bad := step aEnv s0 (.create ⟨nm "library" "a", none, [⟨.colon, "A"⟩], none, none, [], [], []⟩) ch0
+    let ok := step aEnv s0 (.create ⟨nm "library" "b", none, [⟨.colon, "G"⟩, ⟨.colon, "A"⟩], none, none, [], [], []⟩) ch0
+    bad.2 = ["s"] ∧ (listed bad.1).contains (nm "library" "a") = true ∧ incompleteB bad.1 = false ∧
+    showAt aEnv bad.1 (nm "library" "a") = "h404" ∧
+    ((bad.1.readableAt (nm "library" "a")).map (fun m => m.layers.map (·.media))) = some [.adapter] ∧
+    ok.2 = ["s"] ∧ showAt aEnv ok.1 (nm "library" "b") = "h200" ∧ ¬ ModelKinds aEnv := by
+  refine ⟨by decide +kernel, by decide +kernel, by decide +kernel, by decide +kernel, by decide +kernel,
+    by decide +kernel, by decide +kernel, fun h => ?_⟩
+  have := h [65] ⟨"llama", "0", "unknown", none, .adapter⟩ (by decide)
+  cases this
+
 /-- the guard on a pull (`PullOk ∧ PullShowOk`) is satisfiable: the honest registry of `pull_witness` -/
 theorem litterOk_pull_witness :
     LitterOk rEnv (.pull (nm "library" "p") (some regM) [("G", gG), ("C", [67])]) := by
@@ -1338,7 +1371,7 @@ theorem history_listed_shown_instance :
       ∀ n ∈ listed (run rEnv Store.empty histP), showAt rEnv (run rEnv Store.empty histP) n = "h200") ∧
     listed (run rEnv Store.empty histP) = [nm "library" "a"] ∧
     (step rEnv (run rEnv Store.empty (histP.take 2)) (histP.getD 2 (.prune, ch0)).1 ch0).2 = ["s"] :=
-  ⟨history_listed_complete_and_shown_fixed rfl rfl rfl rEnv_inj histP histP_guard Store.empty
+  ⟨history_listed_complete_and_shown_fixed rfl rfl rfl rEnv_inj rEnv_kinds histP histP_guard Store.empty
     (empty_Inv rEnv).1 (empty_ShowInv rEnv), by decide +kernel, by decide +kernel⟩
 
 /-- **the `PullOk` guard is needed (sizes)**: nothing in `PullModel` compares the sizes a registry manifest
